@@ -179,6 +179,15 @@ class Ctx:
             os.remove(binp)  # never run a stale binary
         env = dict(GOENV)
         args = ["go", "build", "-tags", "verif"]
+        if os.path.realpath(REPO) != "/repo":
+            # development aid: check a scratch worktree (VERIF_REPO=/tmp/wt) without touching /repo
+            tag = hashlib.sha1(REPO.encode()).hexdigest()[:8]
+            alt = os.path.join(OUT, f"alt-{tag}.mod")
+            mod = open(os.path.join(HARNESS, "go.mod")).read().replace("=> /repo", "=> " + os.path.realpath(REPO))
+            open(alt, "w").write(mod)
+            shutil.copy(dst_sum, os.path.join(OUT, f"alt-{tag}.sum"))
+            args += ["-modfile", alt]
+            binp = os.path.join(OUT, "bin", cmd + "-" + tag + ("-race" if race else ""))
         if race:
             args.append("-race")
             env["CGO_ENABLED"] = "1"
